@@ -30,22 +30,44 @@ WRAP = ["_ZN12ephemeralnet6crypto6Sha2566updateESt4spanIKhLm18446744073709551615
         "_ZN12ephemeralnet6crypto6Sha2566digestESt4spanIKhLm18446744073709551615EE"]
 
 
+_H = {"internals": True, "notes": []}
+# ops that exist only when the harness may call the repository's anonymous-namespace helpers by name
+INTERNAL_OPS = {"ann", "annsolve", "hs", "hscli", "hsclisolve"}
+
+
 def harness():
     """pow_h.cpp (includes Node.cpp, StoreProof.cpp) + pow_cli_h.cpp (includes main.cpp) + the other repo sources.
     The CLI translation unit is compiled here (keyed on the whole src/ tree, because it #includes a repo .cpp) and handed to
-    the link step as an object, so that a change in one source file does not invalidate every cached object."""
+    the link step as an object, so that a change in one source file does not invalidate every cached object.
+    Built through build_harness_with_fallback: if a private helper the harness names was renamed/inlined, the public-API
+    build (-DVERIF_INTERNALS=0) is used and the gap is reported in the evidence notes."""
     import tools.vlib as V
     srcs = [s for s in ALL_CORE_SOURCES if s not in ("src/core/Node.cpp", "src/security/StoreProof.cpp")]
     srcs += ["src/daemon/ControlPlane.cpp", "src/daemon/ControlClient.cpp", "src/daemon/ControlServer.cpp",
              "src/daemon/StructuredLogger.cpp"]
-    flags = list(BASE_FLAGS) + [f"-I{REPO}/include", f"-I{REPO}/src", f"-I{REPO}", f"-I{VERIF}/harness"]
-    try:
-        cli_obj = V._compile_obj(VERIF / "harness" / "pow_cli_h.cpp", flags,
-                                 tree_hash("include") + tree_hash("src") + (VERIF / "harness" / "pow_cli_h.hpp").read_text())
-    except subprocess.CalledProcessError as ex:  # pragma: no cover
-        raise BuildError("compile pow_cli_h.cpp", str(ex))
-    return build_harness("pow_h", "harness/pow_h.cpp", srcs,
-                         libs=[str(cli_obj)] + [f"-Wl,--wrap={w}" for w in WRAP] + ["-lcurl", "-lpthread"])
+
+    def build(defines):
+        flags = list(BASE_FLAGS) + [f"-I{REPO}/include", f"-I{REPO}/src", f"-I{REPO}", f"-I{VERIF}/harness"] + list(defines)
+        try:
+            cli_obj = V._compile_obj(VERIF / "harness" / "pow_cli_h.cpp", flags,
+                                     tree_hash("include") + tree_hash("src") + (VERIF / "harness" / "pow_cli_h.hpp").read_text())
+        except BuildError as ex:
+            # g++ words a missing qualified name differently from the phrases build_harness_with_fallback looks for
+            if "has not been declared" in ex.output:
+                ex.output += "\n(normalised by props/C19.py: was not declared in this scope)"
+            raise
+        return build_harness("pow_h", "harness/pow_h.cpp", srcs, defines=defines,
+                             libs=[str(cli_obj)] + [f"-Wl,--wrap={w}" for w in WRAP] + ["-lcurl", "-lpthread"])
+
+    _H["notes"] = []
+    exe, _H["internals"] = build_harness_with_fallback(build, _H["notes"])
+    if not _H["internals"]:
+        _H["notes"].append("C19 without harness internals: the raw announce/handshake validators, digest functions and solvers, the CLI's "
+                           "transport_* helpers and three of the four leading-zero counters are unobserved (ops ann, annsolve, hs, hscli, "
+                           "hsclisolve dropped; counters printed as '?'); acceptance is still judged by lz(SHA-256) through "
+                           "Node::verify_announce_pow / perform_handshake / generate_handshake_work, security::store_pow_valid (its preimage "
+                           "stays visible through the SHA-256 tap), compute_store_pow, digest_meets_difficulty, solve_token_challenge and the CLI store command")
+    return exe
 
 
 def extract():
@@ -311,7 +333,25 @@ def gen_storecli(rng) -> Case:
     return Case(ops=[f"storecli {cfg} {name.hex()} {hx(content)}"], tag="storecli")
 
 
+def _public_only(cases):
+    """drop the ops that need harness internals (the rest of each case is kept)"""
+    kept = []
+    for c in cases:
+        ops = [op for op in c.ops if op.split(" ", 1)[0] not in INTERNAL_OPS]
+        if ops:
+            kept.append(Case(ops=ops, tag=c.tag))
+    return kept
+
+
 def generate(ctx, budget):
+    out = _generate(ctx, budget)
+    for n in _H["notes"]:
+        if n not in ctx.notes:
+            ctx.notes.append(n)
+    return out if _H["internals"] else _public_only(out)
+
+
+def _generate(ctx, budget):
     rng = ctx.rng
     out = []
     n_cli = 10 if ctx.tier == "quick" else 80
